@@ -435,6 +435,39 @@ def run(ctx, prop):
                     print(f'SELFTEST {prop} seeded {name}: not reported (recorded as a miss of this check in meta.json)')
             finally:
                 shutil.rmtree(tmp, ignore_errors=True)
+    # independently written behaviour-preserving refactorings: the check must stay silent on every one
+    bdir = os.path.join(os.path.dirname(os.path.dirname(os.path.abspath(__file__))), 'benign')
+    stats['benign_refactorings'] = 0
+    if os.path.isdir(bdir) and ctx.corpus.repo:
+        import importlib
+
+        for name in sorted(os.listdir(bdir)):
+            pp = os.path.join(bdir, name, 'patch.diff')
+            if not os.path.exists(pp):
+                continue
+            tmp = tempfile.mkdtemp(prefix='sa_benign_')
+            try:
+                subprocess.run(f'git -C {ctx.corpus.repo} archive HEAD | tar -x -C {tmp}', shell=True, check=True, capture_output=True)
+                for rel, text in {**files, **extra}.items():
+                    os.makedirs(os.path.dirname(os.path.join(tmp, rel)), exist_ok=True)
+                    with open(os.path.join(tmp, rel), 'w', encoding='utf-8') as fh:
+                        fh.write(text)
+                r = subprocess.run(['patch', '-p1', '-s', '--no-backup-if-mismatch', '-i', pp], cwd=tmp, capture_output=True, text=True)
+                if r.returncode != 0:
+                    print(f'SELFTEST {prop} benign {name}: patch does not apply to the current tree (skipped)')
+                    continue
+                c5 = Ctx(prop, Corpus(tmp), tier='thorough', quiet=True, use_known=True)
+                try:
+                    importlib.import_module(f'sa.rules.{prop.lower()}').run(c5)
+                except AnalysisError as e:
+                    raise AnalysisError(f'self-test {prop}: analysis gives up on the behaviour-preserving refactoring benign/{name}: {e}')
+                if c5.failures:
+                    o = c5.failures[0]
+                    raise AnalysisError(f'self-test {prop}: FALSE ALARM on the behaviour-preserving refactoring benign/{name}: {o.rule} {o.site} {o.what}')
+                stats['benign_refactorings'] += 1
+            finally:
+                shutil.rmtree(tmp, ignore_errors=True)
+        print(f'SELFTEST {prop} benign: silent on {stats["benign_refactorings"]} stored refactorings')
     ctx.extra_evidence = dict(getattr(ctx, 'extra_evidence', None) or {})
     ctx.extra_evidence['self_validation'] = {**stats, 'variant_samples': samples[:6]}
     print(f'SELFTEST {prop}: {stats}')
